@@ -32,6 +32,22 @@ func mkGroup(base scenario, weight int, cancellers ...int) *group {
 
 func (g *group) big() *group { g.Big = true; return g }
 
+// deadlines adds one variant per listed subscriber in which that subscriber's
+// context ends by a deadline (d of virtual time after the start) instead of by
+// a cancel() call.
+func (g *group) deadlines(d time.Duration, subs ...int) *group {
+	for _, ci := range subs {
+		v := *g.Twin
+		v.Subs = append([]subSpec(nil), g.Twin.Subs...)
+		v.Subs[ci].Deadline = d
+		v.Subs[ci].Stay = false
+		v.Name = g.Name + "/deadline-" + v.Subs[ci].Name
+		v.Twin = g.Twin
+		g.Variants = append(g.Variants, &v)
+	}
+	return g
+}
+
 var (
 	tickAck  = []time.Duration{6 * time.Second, 6 * time.Second}   // a late ack becomes possible, then the ack time-out passes
 	tickIdle = []time.Duration{9 * time.Second}                    // the idle period passes
@@ -71,6 +87,12 @@ func scenarioGroups(thorough bool) []*group {
 	add(mkGroup(scenario{Name: "W13-connection-dropped", Up: upSpec{Drop: 1}, Subs: []subSpec{sub("A", "A", nnc...), sub("B", "A2", nnc...)}}, 119, 0))
 	add(mkGroup(scenario{Name: "W15-ping-unanswered", Ping: true, Up: upSpec{NoPong: true}, Ticks: tickPing, Subs: []subSpec{sub("A", "A", n...), sub("B", "A2", n...)}}, 176, 0))
 	add(mkGroup(scenario{Name: "W16-reuse-ping-unanswered", Ping: true, Up: upSpec{NoPong: true}, Ticks: tickPing, Subs: []subSpec{sub("A", "A", n...).late(), sub("B", "A2", n...).after("A")}}, 222, 0).big())
+	// a subscriber's context ends by DEADLINE (virtual time), not by cancel(): as dialler with a
+	// waiter and as waiter, during the HTTP upgrade / after establishment (D01), during protocol
+	// init with a delayed ack and a generous ack time-out (D02), as sole subscriber (D03)
+	add(mkGroup(scenario{Name: "D01-deadline-shared", Ticks: []time.Duration{4 * time.Second}, Subs: []subSpec{sub("A", "A", n...).stays(), sub("B", "A2", nc...)}}, 60).deadlines(3*time.Second, 0, 1))
+	add(mkGroup(scenario{Name: "D02-deadline-during-init", Up: upSpec{Ack: "late"}, AckTimeout: 100 * time.Second, Ticks: []time.Duration{4 * time.Second, 4 * time.Second}, Subs: []subSpec{sub("A", "A", n...).stays(), sub("B", "A2", nc...)}}, 40).deadlines(3*time.Second, 0, 1))
+	add(mkGroup(scenario{Name: "D03-deadline-sole-subscriber", Up: upSpec{Ack: "late"}, AckTimeout: 100 * time.Second, Ticks: []time.Duration{4 * time.Second, 4 * time.Second}, Subs: []subSpec{sub("A", "A", nn...).stays()}}, 2).deadlines(3*time.Second, 0))
 	// legacy graphql-ws on both
 	add(mkGroup(scenario{Name: "W17-legacy-shared", Subs: []subSpec{sub("A", "L", nn...).stays(), sub("B", "L2", ne...)}}, 53, 0))
 
